@@ -1,6 +1,7 @@
 package exec
 
 import (
+	"fmt"
 	"path/filepath"
 
 	"gosym/term"
@@ -18,15 +19,21 @@ type flockObj struct {
 	path   string
 	l, r   bool
 	opened bool
+	inode  *Inode // the lock file this object has open (locks belong to the inode, not the name)
 }
 
 const flockPkg = "github.com/gofrs/flock."
 
-func (ex *Exec) flockTable(path string) *flockState {
-	t, ok := ex.st.flocks[path]
+func (ex *Exec) flockTable(f *flockObj) *flockState {
+	key := f.path
+	if f.inode != nil {
+		// flock(2) locks the open file: a removed and re-created lock file is another file
+		key = fmt.Sprintf("%s#%d", f.path, f.inode.ID)
+	}
+	t, ok := ex.st.flocks[key]
 	if !ok {
 		t = &flockState{shared: map[*flockObj]bool{}}
-		ex.st.flocks[path] = t
+		ex.st.flocks[key] = t
 	}
 	return t
 }
@@ -53,9 +60,10 @@ func init() {
 					return Tuple{term.False, e}
 				}
 				r[0].(*Native).Data.(*FileH).Closed = true
+				f.inode = r[0].(*Native).Data.(*FileH).Inode
 				f.opened = true
 			}
-			t := ex.flockTable(f.path)
+			t := ex.flockTable(f)
 			if exclusive {
 				others := false
 				for o := range t.shared {
@@ -89,13 +97,16 @@ func init() {
 		if !f.l && !f.r {
 			return Iface{}
 		}
-		t := ex.flockTable(f.path)
+		t := ex.flockTable(f)
 		if t.excl == f {
 			t.excl = nil
 		}
 		delete(t.shared, f)
-		f.l, f.r, f.opened = false, false, false
+		f.l, f.r, f.opened, f.inode = false, false, false, nil
 		return Iface{}
+	})
+	reg("(*"+flockPkg+"Flock).Path", func(ex *Exec, fr *Frame, a []Value) Value {
+		return a[0].(*Native).Data.(*flockObj).path
 	})
 	reg("(*"+flockPkg+"Flock).Locked", func(ex *Exec, fr *Frame, a []Value) Value {
 		return mkBool(a[0].(*Native).Data.(*flockObj).l)
